@@ -45,6 +45,9 @@ class Facts:
         self.traits = d['traits']
         for k, b in self.bodies.items():
             b['id'] = k
+            if b.get('kind') == 'Closure' and not b['name'].endswith('{closure}'):
+                # a closure is not the function it is written in: rules that select a method by name must not pick it up
+                b['name'] = b['name'] + '::{closure}'
         # trait default methods with bodies: 'transport::Transport::begin_init'
         for name, a in self.adts.items():
             lay = a.get('layout')
@@ -138,6 +141,38 @@ def model_body(fn, closure_id, line):
                                          asg(_pl(5), {'rv': 'agg', 'kind': 'tuple', 'ops': [{'move': _pl(4)}]})], 'term': call_closure(3)},
             {'cleanup': False, 'stmts': [asg(_pl(0), agg('core::result::Result', 'Ok', 0, [{'move': _pl(6)}]))], 'term': {'k': 'return', 'line': line}},
         ]
+    elif fn in ('core::option::Option::<T>::filter', 'core::option::Option::<T>::is_some_and'):
+        # the predicate sees the payload (by reference for filter, by value for is_some_and)
+        keep = fn.endswith('::filter')
+        arg = {'rv': 'ref', 'place': _pl(1, *some), 'bk': 'shared'} if keep else {'rv': 'use', 'op': {'move': _pl(1, *some)}}
+
+        def const_bool(v):
+            return {'rv': 'use', 'op': {'const': {'ty': 'bool', 'bits': str(v)}}}
+        none_rv = agg('core::option::Option', 'None', 0, []) if keep else const_bool(0)
+        blocks = [
+            {'cleanup': False, 'stmts': [asg(_pl(3), {'rv': 'discr', 'place': _pl(1)}, 'isize')],
+             'term': {'k': 'switch', 'discr': {'move': _pl(3)}, 'dty': 'isize', 'targets': [['0', 1]], 'otherwise': 2, 'line': line}},
+            {'cleanup': False, 'stmts': [asg(_pl(0), none_rv)], 'term': {'k': 'return', 'line': line}},
+            {'cleanup': False, 'stmts': [asg(_pl(4), arg), asg(_pl(5), {'rv': 'agg', 'kind': 'tuple', 'ops': [{'move': _pl(4)}]})], 'term': call_closure(3)},
+        ]
+        if keep:
+            blocks += [
+                {'cleanup': False, 'stmts': [],
+                 'term': {'k': 'switch', 'discr': {'move': _pl(6)}, 'dty': 'bool', 'targets': [['0', 1]], 'otherwise': 4, 'line': line}},
+                {'cleanup': False, 'stmts': [asg(_pl(0), {'rv': 'use', 'op': {'move': _pl(1)}})], 'term': {'k': 'return', 'line': line}},
+            ]
+        else:
+            blocks += [{'cleanup': False, 'stmts': [asg(_pl(0), {'rv': 'use', 'op': {'move': _pl(6)}})], 'term': {'k': 'return', 'line': line}}]
+    elif fn == 'core::result::Result::<T, E>::and_then':
+        blocks = [
+            {'cleanup': False, 'stmts': [asg(_pl(3), {'rv': 'discr', 'place': _pl(1)}, 'isize')],
+             'term': {'k': 'switch', 'discr': {'move': _pl(3)}, 'dty': 'isize', 'targets': [['1', 1]], 'otherwise': 2, 'line': line}},
+            {'cleanup': False, 'stmts': [asg(_pl(4), {'rv': 'use', 'op': {'move': _pl(1, *err)}}),
+                                         asg(_pl(0), agg('core::result::Result', 'Err', 1, [{'move': _pl(4)}]))], 'term': {'k': 'return', 'line': line}},
+            {'cleanup': False, 'stmts': [asg(_pl(4), {'rv': 'use', 'op': {'move': _pl(1, *ok)}}),
+                                         asg(_pl(5), {'rv': 'agg', 'kind': 'tuple', 'ops': [{'move': _pl(4)}]})], 'term': call_closure(3)},
+            {'cleanup': False, 'stmts': [asg(_pl(0), {'rv': 'use', 'op': {'move': _pl(6)}})], 'term': {'k': 'return', 'line': line}},
+        ]
     else:
         return None
     return {'id': 'model:%s:%s' % (fn, closure_id), 'kind': 'Fn', 'name': fn.rsplit('::', 1)[1], 'span': '', 'root': 'model', 'from_expansion': True, 'pub': False,
@@ -145,7 +180,8 @@ def model_body(fn, closure_id, line):
 
 
 MODELLED = ('core::option::Option::<T>::map', 'core::option::Option::<T>::and_then', 'core::result::Result::<T, E>::map',
-            'core::bool::<impl bool>::then')
+            'core::bool::<impl bool>::then', 'core::option::Option::<T>::filter', 'core::option::Option::<T>::is_some_and',
+            'core::result::Result::<T, E>::and_then')
 
 
 class Node:
@@ -1021,7 +1057,7 @@ def simplify(t, call_d=None):
         v = t[1]
         if v[0] == 'agg' and v[3] and t[2] in v[3]:
             return v[2][v[3].index(t[2])]
-        if v[0] == 'agg' and v[1] == 'tuple' and t[2].isdigit() and int(t[2]) < len(v[2]):
+        if v[0] == 'agg' and (v[1] == 'tuple' or v[1].startswith('closure:')) and t[2].isdigit() and int(t[2]) < len(v[2]):
             return v[2][int(t[2])]
         if v[0] == 'bin' and v[1].endswith('WithOverflow'):
             if t[2] == '0':
@@ -1214,6 +1250,9 @@ def deep_subterms(S, t, depth=4, _seen=None):
     _seen = set() if _seen is None else _seen
     for x in subterms(t):
         yield x
+        if x[0] == 'field' and x[1][0] == 'load' and x[1][1][0] == 'loc' and x[1][1][1][0] == 'local' and not x[1][1][2]:
+            # a field of a whole-local load: the same as a load of that field of the local
+            x = ('loc', x[1][1][1], (('f', x[2], None),))
         if depth > 0 and x[0] == 'loc' and x[1][0] == 'local':
             _, cx, l = x[1]
             if (cx, l) in _seen:
